@@ -430,6 +430,10 @@ def standard_proof_phase(chk, pid, gen_needed=None, extra_targets=()):
     ok = True
     # 1. translate
     try:
+        # System.v is written over Gen/RoundGen.v (the shape of a submitter round), so every check that
+        # builds the system model re-translates it, whatever else it needs
+        if gen_needed is not None:
+            gen_needed = tuple(gen_needed) + (("RoundGen",) if "RoundGen" not in gen_needed else ())
         info = translate.run(only=gen_needed) if gen_needed is not None else translate.run()
         chk.oblige("translate:" + ",".join(sorted(info)) if info else "translate", True, json.dumps(info)[:400])
         chk.notes["translated"] = info
